@@ -533,12 +533,13 @@ func (db *Database) Info() (string, error) {
 				fmt.Fprintf(b, "    error: %s\n", err)
 			} else {
 				i := 0
-				ind.Scan(func(rec Record) bool {
+				if err := ind.Scan(func(rec Record) bool {
 					fmt.Fprintf(b, "    %v\n", rec)
 					i++
 					return i > 5
-				})
-				if i == 0 {
+				}); err != nil {
+					fmt.Fprintf(b, "    error: %s\n", err)
+				} else if i == 0 {
 					fmt.Fprintf(b, "    (no rows)\n")
 				}
 			}
